@@ -24,7 +24,7 @@ open NatHole (aget aput adel authInput)
 
 /-- `false` = pkg/nathole/controller.go as it is now; `true` = with hooks/C08-fix-nathole-allowusers.patch.
     Flip this (and commit the patch to /repo) to make the driver follow the repaired code. -/
-def natFixed : Bool := false
+def natFixed : Bool := true
 
 inductive Err
   | noRun        -- "no client control found for run id"
